@@ -533,6 +533,59 @@ fn main() {
                 json!({"ok": true, "clusters": t.graphemes(true).map(|g| g.chars().count()).collect::<Vec<_>>()})
             }),
             "fullwidth" => guard(|| json!({"ok": true, "out": KyteaFullwidthFilter.filter(s(&op["text"]))})),
+            "zstd_decode" => guard(|| {
+                let data = u8s(&op["bytes"]);
+                let mut src = data.as_slice();
+                let mut dec = match ruzstd::decoding::StreamingDecoder::new(&mut src) {
+                    Ok(d) => d,
+                    Err(e) => return json!({"err": format!("{e}")}),
+                };
+                let mut out = vec![];
+                match dec.read_to_end(&mut out) {
+                    Ok(_) => json!({"ok": true, "bytes": out}),
+                    Err(e) => json!({"err": format!("{e}")}),
+                }
+            }),
+            "csv_roundtrip" => guard(|| {
+                // the real csv crate: write records (3 string columns, serde) with the default writer; read `text` (or what was written) back with
+                // the reader options given -> validates the contract model of mirsym/models/m_csv.py
+                #[derive(serde::Serialize, serde::Deserialize)]
+                struct Rec {
+                    word: String,
+                    weights: String,
+                    comment: String,
+                }
+                let mut written = vec![];
+                if let Some(recs) = op["records"].as_array() {
+                    let mut w = csv::Writer::from_writer(&mut written);
+                    for r in recs {
+                        let a = r.as_array().cloned().unwrap_or_default();
+                        let f = |i: usize| a.get(i).and_then(|x| x.as_str()).unwrap_or("").to_string();
+                        if let Err(e) = w.serialize(Rec { word: f(0), weights: f(1), comment: f(2) }) {
+                            return json!({"err": format!("write: {e}")});
+                        }
+                    }
+                    w.flush().unwrap();
+                }
+                let input: Vec<u8> = if op["input"].is_array() { u8s(&op["input"]) } else { written.clone() };
+                let mut b = csv::ReaderBuilder::new();
+                if let Some(c) = op["comment"].as_u64() {
+                    b.comment(Some(c as u8));
+                }
+                let mut rdr = b.from_reader(input.as_slice());
+                let mut out = vec![];
+                let mut error = Value::Null;
+                for r in rdr.deserialize::<Rec>() {
+                    match r {
+                        Ok(x) => out.push(json!([x.word, x.weights, x.comment])),
+                        Err(e) => {
+                            error = json!(format!("{e}"));
+                            break;
+                        }
+                    }
+                }
+                json!({"ok": true, "written": written, "records": out, "error": error})
+            }),
             "observe" => guard(|| observe(sents.get(&s(&op["s"])).expect("sentence id"), op["cands"].as_bool().unwrap_or(false))),
             "model_roundtrip" => guard(|| {
                 // to_vec / read / read_slice on the described model + trailing bytes
